@@ -45,3 +45,7 @@ TECHNIQUE["C01"] = "deterministic simulation of construction + swap histories ag
 LEVEL_TEXT["C18"] = "Kernel invocations on generated structured inputs with scheduled LAPACK failures: expm_krylov vs scipy expm (2e-6 relative; degenerate/rank-deficient/diagonal spectra, invariant-subspace starts, block sizes 2-50, real/imaginary dt of both signs, eigh_tridiagonal failing so the dense fallback runs), svd_qn/eigh_qn (SVD/QR, both systems, full/economic, optimised completion) for orthonormality, exact restoration of the symmetry-allowed part, labels, sorting, with the first SVD driver failing so the gesvd fallback runs."
 LEVEL_NOTE["C18"] = "Trusted: scipy.linalg.expm / svdvals.  Probes for every exit branch (buffer growth, full-space, structured early exit, convergence, both LAPACK fallbacks) are reported non-zero in the evidence."
 TECHNIQUE["C18"] = "deterministic simulation with injected LAPACK failures at scheduled calls + seeded structured inputs"
+
+LEVEL_TEXT["C07"] = "Observables of states and density operators drawn from session histories (any gauge, complex, un-normalised, spilled): expectation / transition amplitudes, batched expectations on generated operator LISTS (shared prefixes, duplicates, scaled copies, permutations, pool operators) through fast and slow path, occupations through the per-model operator cache, 1-/2-site and electronic RDMs, 1-site/2-site/mutual/bond entropies - all against dense partial traces; SimHash narrows Matrix.__hash__ to 1-16 bits so the collision branch of the cache is exercised (must refuse loudly or be right)."
+LEVEL_NOTE["C07"] = _CHAIN_NOTE + " RDM index convention: rho or its transpose is accepted (documented formula and electronic-RDM formula use opposite conventions)."
+TECHNIQUE["C07"] = "deterministic simulation of observation histories with narrowed-hash fault injection against dense partial traces"
